@@ -30,7 +30,15 @@ func derivesFrom(v ssa.Value, pred func(ssa.Value) bool, d int) bool {
 			}
 		}
 		return false
-	case *ssa.Parameter, *ssa.Const, *ssa.Global, *ssa.FreeVar, *ssa.Function, *ssa.Builtin:
+	case *ssa.Parameter:
+		// a helper's parameter stands for the arguments bound to it by the rule (derivParamBind)
+		for _, a := range derivParamBind[x] {
+			if derivesFrom(a, pred, d+1) {
+				return true
+			}
+		}
+		return false
+	case *ssa.Const, *ssa.Global, *ssa.FreeVar, *ssa.Function, *ssa.Builtin:
 		return false
 	case *ssa.Alloc:
 		return allocFedBy(x, pred, d+1, map[ssa.Value]bool{})
@@ -98,6 +106,11 @@ func allocFedBy(addr ssa.Value, pred func(ssa.Value) bool, d int, seen map[ssa.V
 	}
 	return false
 }
+
+// derivParamBind, when a rule follows a call into a helper, maps the helper's parameters to the
+// call-site arguments, so that provenance questions asked inside the helper are answered in
+// terms of the caller's values. Set and cleared by the rule that uses it.
+var derivParamBind = map[*ssa.Parameter][]ssa.Value{}
 
 // derivStop, when set, cuts the backward walk of derivesFrom at the accepted values.
 var derivStop func(ssa.Value) bool
@@ -252,6 +265,23 @@ func (e *expiryCtx) polarity(v ssa.Value, isDeadline, isNow func(ssa.Value) bool
 		}
 	}
 	return 0, nil
+}
+
+// viaHelper: the condition (possibly negated) is a call of an expiry predicate helper.
+func (e *expiryCtx) viaHelper(cond ssa.Value) bool {
+	for d := 0; d < 4; d++ {
+		if u, ok := cond.(*ssa.UnOp); ok && u.Op == token.NOT {
+			cond = u.X
+			continue
+		}
+		break
+	}
+	c, ok := cond.(*ssa.Call)
+	if !ok {
+		return false
+	}
+	f := c.Call.StaticCallee()
+	return f != nil && e.helpers[f] != 0
 }
 
 // findHelpers finds module functions `func(entry/deadline, now) bool` whose result is an expiry test
